@@ -64,6 +64,9 @@ def r16a(ck, prog, functions=None, rule="R16a"):
                     m = access_mode(r)
                     if m in ("write", "rmw", "addr", "decay") or m.startswith("elem-w") or m.startswith("elem-rmw"):
                         writes.append((F, r, m))
+        if const:
+            # a const-qualified object: handing out its address (a cursor walking a constant table) cannot change it
+            writes = [w_ for w_ in writes if w_[2] not in ("addr", "decay")]
         ck.inst(rule, loc + ":" + name, "global %s: %s, %d write site(s)" % (name, "const" if const else "mutable", len(writes)), prog.config)
         if const and not writes:
             continue
